@@ -106,7 +106,16 @@ class Case:
         if len(sts) == 1:
             return sts[0]
         if len(sts) % 2 == 0:
-            return model.ObjectProviderMultiplexer(sts)
+            if sum(len(x) for x in (self.stores if stores is None else stores)) % 2 == 0:
+                return model.ObjectProviderMultiplexer(sts)
+            # the caller's (still empty) registry list is handed over first and filled afterwards: the code keeps that very
+            # list (`registries if registries is not None else []`), so the multiplexer sees what is registered later.
+            # The oracle only judges objects the provider actually returns (`held`), the correspondence compares with the
+            # model, in which the multiplexer consults the stores of the line.
+            regs: list = []
+            mux = model.ObjectProviderMultiplexer(regs)
+            regs.extend(sts)
+            return mux
         # constructed without an argument and filled afterwards; a second multiplexer constructed the same way stays empty
         mux = model.ObjectProviderMultiplexer()
         for st in sts:
@@ -259,6 +268,32 @@ def impl_getref(case: Case, u: int, start, segs) -> List[Any]:
         return canon_exc(e)
 
 
+def impl_getref1(case: Case, u: int, start, seg) -> List[Any]:
+    """the bare-string argument form: get_referable("x")"""
+    try:
+        from basyx.aas import model
+        return case.node_json(model.UniqueIdShortNamespace.get_referable(case.objs[u][tuple(start)], seg))
+    except Exception as e:
+        return canon_exc(e)
+
+
+def impl_follow(case: Case, u: int, start, segs) -> List[Any]:
+    """obj = start; for seg in path: obj = obj.get_referable(seg)  — through the object's own (bound) method"""
+    try:
+        o = case.objs[u][tuple(start)]
+        for seg in segs:
+            o = o.get_referable(seg)
+        return case.node_json(o)
+    except AttributeError as e:
+        # a leaf has no get_referable at all: the unbound call raises TypeError for it (not a namespace)
+        from basyx.aas import model
+        if not isinstance(o, model.UniqueIdShortNamespace):
+            return ["raise", "TypeError"]
+        return canon_exc(e)
+    except Exception as e:
+        return canon_exc(e)
+
+
 def impl_classes() -> List[Any]:
     import inspect
     from basyx.aas import model
@@ -397,6 +432,16 @@ def case_lines(rng: random.Random, case: Case, cov: Optional[C.Coverage]) -> Tup
                     if cov is not None:
                         cov.hit("getref:" + label + ("!" + r[1] if r[0] == "raise" else ""))
                         cov.nontrivial.add(C.sha([shape_sig(d, p), "path", label, k, r[:2]]))
+                    if len(segs) == 1:
+                        r1 = impl_getref1(case, u, start, segs[0])
+                        lines.append(["getref1", u, list(start), segs[0]]); impl.append(r1); tags.append("getref1:" + label)
+                        if cov is not None:
+                            cov.hit("getref1:" + label + ("!" + r1[1] if r1[0] == "raise" else ""))
+                    if segs and (k == 0 or label != "exact"):
+                        rf = impl_follow(case, u, start, segs)
+                        lines.append(["follow", u, list(start), segs]); impl.append(rf); tags.append("follow:" + label)
+                        if cov is not None:
+                            cov.hit("follow:" + label + ("!" + rf[1] if rf[0] == "raise" else ""))
     return lines, impl, tags
 
 
@@ -683,7 +728,7 @@ def check_case(case_json, rng: Optional[random.Random] = None) -> Optional[C.Fai
                 pass
     # (e) the provider is a live object: after an identifiable is taken out of its store, references into it no longer
     #     resolve; after a rebuilt copy is put in, they resolve to the elements of the COPY (never to the old ones)
-    stores = getattr(prov, "providers", None) or [prov]
+    stores = list(prov.providers) if isinstance(prov, model.ObjectProviderMultiplexer) else [prov]
     for u, d in enumerate(case.descs):
         root = case.objs[u][()]
         holder = next((st for st in stores if root in st), None)
@@ -772,6 +817,25 @@ def judge_path(case: Case, u: int, d, root, segs, where) -> Optional[C.Failing]:
     elif got != ("raise", exp):
         return C.Failing(neg_sig(classify_seg(d, segs), exp, "element" if got[0] == "node" else got[1]),
                          f"get_referable({segs}) gave {got}, documented: {exp}", where, got, exp)
+    if not segs:
+        return None
+    # "following its idShort/index path from the root", one segment at a time, each a call with a bare string
+    o: Any = root
+    try:
+        for seg in segs:
+            if not isinstance(o, model.UniqueIdShortNamespace):
+                raise TypeError("not a namespace")        # an element that cannot have children has no get_referable
+            o = o.get_referable(seg)
+        got2: Any = ("node", list(case.ident[id(o)][1]) if id(o) in case.ident and case.ident[id(o)][0] == u else "other-root")
+    except Exception as e:
+        got2 = ("raise", canon_exc(e)[1])
+    if kind == "node":
+        if got2 != ("node", exp):
+            return C.Failing("path:stepwise:" + classify_seg(d, segs) + ":wrong-result",
+                             f"following {segs} one segment at a time (get_referable(<str>)) = {got2}, expected node {exp}", where, got2, exp)
+    elif got2 != ("raise", exp):
+        return C.Failing("path:stepwise:" + neg_sig(classify_seg(d, segs), exp, "element" if got2[0] == "node" else got2[1]),
+                         f"following {segs} one segment at a time gave {got2}, documented: {exp}", where, got2, exp)
     return None
 
 
